@@ -102,8 +102,13 @@ func followRule(r *node, ctx *Ctx) (err error) {
 	case r.typ == typeLoopRange:
 		// Evaluate range loops.
 		// See Ctx.rloop().
+		// A break depth that is still pending for the enclosing loops survives this loop.
+		brkD := ctx.brkD
 		ctx.brkD = 0
 		ctx.rloop(r.loopSrc, r, r.child)
+		if ctx.brkD < brkD {
+			ctx.brkD = brkD
+		}
 		if ctx.Err != nil {
 			err = ctx.Err
 			return
@@ -111,8 +116,13 @@ func followRule(r *node, ctx *Ctx) (err error) {
 	case r.typ == typeLoopCount:
 		// Evaluate counter loops.
 		// See Ctx.cloop().
+		// A break depth that is still pending for the enclosing loops survives this loop.
+		brkD := ctx.brkD
 		ctx.brkD = 0
 		ctx.cloop(r, r.child)
+		if ctx.brkD < brkD {
+			ctx.brkD = brkD
+		}
 		if ctx.Err != nil {
 			err = ctx.Err
 			return
